@@ -703,34 +703,37 @@ func (eng *Engine) checkClause(p *packages.Package, cl *Clause, pos token.Pos, u
 // uniqueLocal returns the only local variable named name declared anywhere in
 // the body of u (nil if there is none or more than one).
 func (eng *Engine) uniqueLocal(u *FuncUnit, name string) *types.Var {
-	var found *types.Var
-	n := 0
+	var all, inScope []*types.Var
 	for id, obj := range u.Pkg.TypesInfo.Defs {
 		if id.Name != name || obj == nil || id.Pos() < u.Decl.Body.Pos() || id.Pos() > u.Decl.Body.End() {
 			continue
 		}
-		if v, ok := obj.(*types.Var); ok && !v.IsField() {
-			// a precall clause is evaluated at the guarded calls: a variable whose scope
-			// does not contain all of them cannot be meant
-			if len(eng.precallSites) > 0 && v.Parent() != nil {
-				all := true
-				for _, p := range eng.precallSites {
-					if !v.Parent().Contains(p) {
-						all = false
-					}
-				}
-				if !all {
-					continue
+		v, ok := obj.(*types.Var)
+		if !ok || v.IsField() {
+			continue
+		}
+		all = append(all, v)
+		// a precall clause is evaluated at the guarded calls: among several variables
+		// of the same name, the one whose scope contains all of them is meant
+		if len(eng.precallSites) > 0 && v.Parent() != nil {
+			in := true
+			for _, p := range eng.precallSites {
+				if !v.Parent().Contains(p) {
+					in = false
 				}
 			}
-			found = v
-			n++
+			if in {
+				inScope = append(inScope, v)
+			}
 		}
 	}
-	if n != 1 {
-		return nil
+	switch {
+	case len(all) == 1:
+		return all[0]
+	case len(inScope) == 1:
+		return inScope[0]
 	}
-	return found
+	return nil
 }
 
 // callSites returns the positions of the calls in u whose callee matches re.
